@@ -278,7 +278,7 @@ class IMAPClientProxy:
                 if self.cmd_processor.idling:
                     ls_imap_msg = imap_msg.lower().strip()
                     if ls_imap_msg.endswith("idle"):
-                        await self.push("+ idling")
+                        await self.push("+ idling\r\n")
                     elif ls_imap_msg != "done":
                         await self.push(
                             f"* NO Expected 'DONE' not: {imap_msg}\r\n"
